@@ -59,6 +59,8 @@ MISSED = {  # seeded change -> what was added to the check after it was missed
  "C12-k": "a fork: copy.copy of the trie object runs ahead through the next operations while the original is read (also added to the hexary history runner)",
  "C15-l": "update streams produced by a tree re-opened with from_db",
  "C18-k": "if_branch_valid asked to confirm an absence (value None) with an invalid key",
+ # round 7 (one more change for 17 properties, "m"; no briefing beyond the property text)
+ "C16-m": "the library's own sentinel byte strings (keccak(b''), keccak(0x80), 0x80, 32 zero bytes, ...) and their prefixed / extended / truncated forms handed to parse_node as a serialized node",
 }
 print("| id | change (abridged) | needs | monitor(s) that fired | first run |")
 print("|---|---|---|---|---|")
